@@ -406,9 +406,9 @@ def fmt_writes(fn, F):
     out = []
     for n, anc in hir.walk(body):
         c = hir.callee_of(n) if n.get("k") in ("Call", "MethodCall") else None
-        if not c or not (c.endswith("Formatter::<'a>::write_fmt") or c.endswith("io::_print") or c.endswith("io::_eprint")):
+        if not c or not (c.endswith("::write_fmt") or c.endswith("io::_print") or c.endswith("io::_eprint")):
             continue
-        argsnode = n["args"][0] if n["k"] == "MethodCall" else n["args"][0]
+        argsnode = n["args"][0] if n["k"] == "MethodCall" else n["args"][-1]
         a = hir.fold(sym(argsnode), {})
         text, args = None, []
         if a[0] == "call" and str(a[1]).endswith("::from_str"):
